@@ -6,6 +6,8 @@ Unit level (real code of src/intron_graph.py, src/graph_based_model_construction
   graph_system          the REAL IntronCollector / IntronGraph / IntronPathProcessor objects driven through random valid mutator sequences
                         (cluster_introns, add_edge, collapse_vertex, discard, simplify_correction_map, thread_introns), logged by the same
                         recorder as the pipeline wrapper and validated as runs of the abstract system
+  cluster               collect_introns + cluster_introns (REAL) against the executable model GraphCluster.cluster on exhaustive small multisets of (intron, count)
+  collapse_vertex_set   the REAL decision which vertex of a set is collapsed into which against GraphPasses.collapse_vertex_set, exhaustive small sets
   collector             the REAL IntronCollector.add_substitute / discard / simplify_correction_map driven directly through every short valid call sequence
                         (substitution chains, substitutes discarded afterwards) and IntronPathProcessor.thread_introns on the result
   detect_similar        the REAL detect_similar_isoforms on small model sets (assigner stubbed): which models may be absorbed
@@ -998,14 +1000,23 @@ def run(ctx, only=None):
              "full-length path are the threaded images computed by the model, that every decision of construct_fl_isoforms is the one of `decide`, and that the logged store operations are a run of the store system "
              "ending in the logged read table. Per run and chromosome Coq evaluates novel_ok (Appendix E) on transcript_models.gtf, transcript_model_reads.tsv, corrected_reads.bed and the input GTF; non-trivial = "
              "a region with a substitution / collapse / discard, a region emitting a novel model, a chromosome with a spliced novel model")
+    ctx.notes.append("per region Coq additionally recomputes: the clustering operations from the logged reads (GraphCluster.cluster = logged prefix), the add_edge sequence (construct_ops), every collapse_vertex_set "
+                     "answer with the counts it read, the collapse_vertex calls that follow each answer, remove_isolates' discards, the clustered_introns counts at the end (GraphPasses.passes_ok), and path_storage.paths / "
+                     "fl_paths from the finished graph (GraphPaths.fill_trace_ok). Observation (not a C04 violation): a defaultdict look-up `clustered_introns[i]` on a stale neighbour set can re-create a collapsed intron as a "
+                     "zero-coverage key in the middle of clean_tips_and_bulges; remove_isolates then discards it and every read containing that intron is dropped from path construction (modelled: Touch step, discard of a key).")
     ctx.notes.append("decided inside Coq: validity of every logged step (preconditions), agreement of snapshots, threading, known paths, decisions (strand, gene, nic), store runs and the read table, every clause of "
                      "novel_ok including which clause fails and whether a failing duplicate / strand matches the structural description of the two by-design findings (duplicates_left_by_design: the model has <= 2 exons, or for every same-strand duplicate "
                      "of the chain the assigner of the tree under test, replayed by the wrapper on the pair in both directions as detect_similar_isoforms calls it, gives no matching assignment; strand '.' with only the strand clause failing) - the run-level fact `--report_canonical all` comes from the command line. "
                      "Python side (adapters): parsing GTF / BED / TSV, interning ids, joining a model with its chromosome's lists, grouping trace records, gene ids numbered in string order.")
     ctx.assume.append("harness/c04_wrapper.py logs every mutation: the three collector containers and the two edge dictionaries are replaced by logging subclasses of the same built-in types (any mutation outside a known "
                       "mutator becomes a `Raw` step that the abstract system rejects; mutations of the edge SETS are attributed to add_edge / collapse_vertex / attach_transcpt_ends and checked by the snapshots only)")
-    ctx.assume.append("the assigner (LongReadAssigner / is_matching_assignment), canonical-site look-ups in the reference and the coverage heuristics (collapse_vertex_set, singleton dead ends, isolates, terminal positions, "
-                      "detect_similar_isoforms' matches, relative cut-offs) are inputs / oracles of the model: the theorems hold for every answer they can give")
+    ctx.assume.append("still inputs / oracles of the model (the theorems hold for every answer they can give): the assigner (LongReadAssigner / is_matching_assignment, also inside detect_similar_isoforms), canonical-site look-ups "
+                      "in the reference; remove_singleton_dead_ends (which successor sets are cut, which vertices lose their edges); which vertices are isolated (is_isolated needs both edge dictionaries; the model keeps the "
+                      "outgoing one) and the neighbour sets the incoming loop of clean_tips_and_bulges / a stale (already collapsed) vertex passes to collapse_vertex_set; attach_terminal_positions with "
+                      "cluster_polya_positions / cluster_terminal_positions (terminal vertices and their float cut-offs); the relative coverage cut-offs of filter_transcripts. EXECUTABLE and corresponded: collect_introns, "
+                      "cluster_introns, construct, collapse_vertex_set, the collapse loops with their to_remove bookkeeping, remove_isolates' collapse + discard rule, count bookkeeping of clustered_introns, "
+                      "simplify_correction_map, thread_introns / thread_ends / thread_starts / IntronPathStorage.fill, construct_fl_isoforms' decision, detect_similar_isoforms' loop, the model store")
+    ctx.assume.append("float test `count < n * graph_clustering_ratio` equals the exact rational test (enumerated for n <= 20000 / 200000 on every run; ratios 0.5 and 0.3)")
     ctx.assume.append("GTF / BED / TSV parsers of harness/pipeline.py; corrected_reads.bed rows are the corrected alignments of the input reads (C14); exons of a model are get_exons(range, intron_path) (C03) so that its "
                       "printed chain is its intron path (model_chain_is_path under wfp, checked on every decision by decision_prop through the vertex-set clause)")
 
